@@ -15,7 +15,8 @@ import subprocess
 import sys
 import time
 
-VERIF = '/verif'
+# root of this verification tree: /verif normally, a snapshot directory under `vp run`
+VERIF = os.path.dirname(os.path.dirname(os.path.abspath(__file__)))
 # VERIF_REPO / VERIF_BUILD: development-time override used for mutation experiments in a scratch
 # worktree (never by a registered command: those always build from /repo's working tree)
 REPO = os.environ.get('VERIF_REPO') or '/repo'
